@@ -8,7 +8,7 @@ From JSL Require Import Base Instance Dstate Filters World Observers Feasible Li
 From Coq Require Import Lia.
 
 Definition plain_kind (k : okind) : bool :=
-  match k with KHist | KUnsched | KMakespan | KIdle => true | KRec _ | KFeat => false end.
+  match k with KHist | KUnsched | KMakespan | KIdle => true | KRec _ _ | KFeat => false end.
 
 Lemma all_sops_init I : all_sops (sched (init_d I)) = [].
 Proof. unfold all_sops, init_d. cbn [sched]. apply concat_repeat_nil. Qed.
